@@ -235,4 +235,118 @@ theorem firstOnMain_some (numOnMain : Nat → Option Nat) : ∀ (l : List Nat) (
       · subst h; rw [hm] at hn; cases hn
       · exact ih (i + 1) e n h hn
 
+/-- every entry of the loop's result was already accumulated or is `A i` for some `i ≤ index`;
+the accumulated entries stay in front -/
+theorem locatorLoop_entries (A : Nat → Option Nat) (fuel : Nat) :
+    ∀ (step index base : Nat) (acc l : List Nat) (f : Bool),
+    locatorLoop (fun _ i => A i) fuel step index base acc = some (l, f) →
+    (∃ rest, l = acc ++ rest) ∧ ∀ x ∈ l, x ∈ acc ∨ ∃ i, i ≤ index ∧ A i = some x := by
+  induction fuel with
+  | zero =>
+    intro step index base acc l f h
+    simp only [locatorLoop, Option.some.injEq, Prod.mk.injEq] at h
+    obtain ⟨rfl, _⟩ := h
+    exact ⟨⟨[], by simp⟩, fun x hx => Or.inl hx⟩
+  | succ fuel ih =>
+    intro step index base acc l f h
+    simp only [locatorLoop] at h
+    cases hA : A index with
+    | none => rw [hA] at h; cases h
+    | some hh =>
+      rw [hA] at h
+      simp only [] at h
+      have key : ∀ (step' index' : Nat), index' ≤ index →
+          locatorLoop (fun _ i => A i) fuel step' index' hh (acc ++ [hh]) = some (l, f) →
+          (∃ rest, l = acc ++ rest) ∧ ∀ x ∈ l, x ∈ acc ∨ ∃ i, i ≤ index ∧ A i = some x := by
+        intro step' index' hle hr
+        obtain ⟨⟨rest, hrest⟩, hmem⟩ := ih step' index' hh (acc ++ [hh]) l f hr
+        refine ⟨⟨hh :: rest, by rw [hrest]; simp⟩, ?_⟩
+        intro x hx
+        rcases hmem x hx with h1 | ⟨i, hi, hAi⟩
+        · rcases List.mem_append.mp h1 with h2 | h2
+          · exact Or.inl h2
+          · have : x = hh := by simpa using h2
+            subst this
+            exact Or.inr ⟨index, Nat.le_refl _, hA⟩
+        · exact Or.inr ⟨i, by omega, hAi⟩
+      generalize (if (acc ++ [hh]).length ≥ 10 then step * 2 else step) = st at h
+      by_cases hlt : index < st * 2
+      · simp only [hlt, if_true] at h
+        by_cases hb : ((acc ++ [hh]).length < 52 && decide (index > CkbVerif.Gen.Sync.ONE_DAY_BLOCK_NUMBER)) = true
+        · simp only [hb, if_true] at h
+          exact key _ _ (Nat.div_le_self _ _) h
+        · simp only [hb, Bool.false_eq_true, if_false, Option.some.injEq, Prod.mk.injEq] at h
+          obtain ⟨rfl, _⟩ := h
+          refine ⟨⟨[hh], rfl⟩, ?_⟩
+          intro x hx
+          rcases List.mem_append.mp hx with h2 | h2
+          · exact Or.inl h2
+          · have : x = hh := by simpa using h2
+            subst this
+            exact Or.inr ⟨index, Nat.le_refl _, hA⟩
+      · simp only [hlt, if_false] at h
+        exact key _ _ (Nat.sub_le _ _) h
+
+/-- with enough fuel, a result without the genesis flag ends in `A 0` -/
+theorem locatorLoop_last (A : Nat → Option Nat) (fuel : Nat) :
+    ∀ (step index base : Nat) (acc l : List Nat), 1 ≤ step → index < fuel →
+    locatorLoop (fun _ i => A i) fuel step index base acc = some (l, false) →
+    ∃ x, A 0 = some x ∧ l.getLast? = some x := by
+  induction fuel with
+  | zero => intro step index base acc l _ hf; omega
+  | succ fuel ih =>
+    intro step index base acc l hs hf h
+    simp only [locatorLoop] at h
+    cases hA : A index with
+    | none => rw [hA] at h; cases h
+    | some hh =>
+      rw [hA] at h
+      simp only [] at h
+      have hstep : 1 ≤ (if (acc ++ [hh]).length ≥ 10 then step * 2 else step) := by split <;> omega
+      generalize (if (acc ++ [hh]).length ≥ 10 then step * 2 else step) = st at h hstep
+      by_cases hlt : index < st * 2
+      · simp only [hlt, if_true] at h
+        by_cases hb : ((acc ++ [hh]).length < 52 && decide (index > CkbVerif.Gen.Sync.ONE_DAY_BLOCK_NUMBER)) = true
+        · simp only [hb, if_true] at h
+          have hidx : index > CkbVerif.Gen.Sync.ONE_DAY_BLOCK_NUMBER := by
+            simp only [Bool.and_eq_true, decide_eq_true_eq] at hb; exact hb.2
+          have : index / 2 < index := Nat.div_lt_self (by omega) (by omega)
+          exact ih _ _ _ _ _ hstep (by omega) h
+        · simp only [hb, Bool.false_eq_true, if_false, Option.some.injEq, Prod.mk.injEq] at h
+          obtain ⟨rfl, hz⟩ := h
+          have h0 : index = 0 := by simpa using hz
+          subst h0
+          exact ⟨hh, hA, by simp⟩
+      · simp only [hlt, if_false] at h
+        exact ih _ _ _ _ _ hstep (by omega) h
+
+
+/-- the first iteration pushes `A index` right behind the accumulated entries -/
+theorem locatorLoop_head (A : Nat → Option Nat) (fuel : Nat) (step index base : Nat) (acc l : List Nat) (f : Bool)
+    (h : locatorLoop (fun _ i => A i) (fuel + 1) step index base acc = some (l, f)) :
+    ∃ hh rest, A index = some hh ∧ l = acc ++ hh :: rest := by
+  simp only [locatorLoop] at h
+  cases hA : A index with
+  | none => rw [hA] at h; cases h
+  | some hh =>
+    rw [hA] at h
+    simp only [] at h
+    have key : ∀ (step' index' : Nat),
+        locatorLoop (fun _ i => A i) fuel step' index' hh (acc ++ [hh]) = some (l, f) →
+        ∃ hh' rest, some hh = some hh' ∧ l = acc ++ hh' :: rest := by
+      intro step' index' hr
+      obtain ⟨⟨rest, hrest⟩, _⟩ := locatorLoop_entries A fuel step' index' hh (acc ++ [hh]) l f hr
+      exact ⟨hh, rest, rfl, by rw [hrest]; simp⟩
+    generalize (if (acc ++ [hh]).length ≥ 10 then step * 2 else step) = st at h
+    by_cases hlt : index < st * 2
+    · simp only [hlt, if_true] at h
+      by_cases hb : ((acc ++ [hh]).length < 52 && decide (index > CkbVerif.Gen.Sync.ONE_DAY_BLOCK_NUMBER)) = true
+      · simp only [hb, if_true] at h
+        exact key _ _ h
+      · simp only [hb, Bool.false_eq_true, if_false, Option.some.injEq, Prod.mk.injEq] at h
+        obtain ⟨rfl, _⟩ := h
+        exact ⟨hh, [], rfl, rfl⟩
+    · simp only [hlt, if_false] at h
+      exact key _ _ h
+
 end CkbVerif.Skip
